@@ -541,3 +541,40 @@ Definition check_iteration (K W : nat) (data : list seqt) (act : list bool) (sta
   matrix_eqb (it_counts it) (recompute_motif K W data (upd (it_z it) false act) starts)
   && (it_n it =? count_true (upd (it_z it) false act))
   && (it_z it <? length data)%nat.
+
+(* ---------- the property as an executable check of a whole reported trace ---------- *)
+
+(* one observed call of next() that returned Some: the Iteration and the state reported after it *)
+Record ostep := mkOStep { o_it : iteration; o_rep : report }.
+
+Section CheckC16.
+  Variable freq : N -> N -> Z.
+  Variable K W : nat.
+  Variable data : list seqt.
+
+  (* the [idx]-th call: the reported state is the recomputation from its alignment, the
+     iteration counts are those of the alignment without z (the alignments before and after
+     the call differ only at z), the step number is the number of the call *)
+  Definition check_step (idx : N) (prev : report) (o : ostep) : bool :=
+    check_state freq K W data (o_rep o)
+    && check_iteration K W data (r_active prev) (r_starts prev) (o_it o)
+    && check_iteration K W data (r_active (o_rep o)) (r_starts (o_rep o)) (o_it o)
+    && (it_step (o_it o) =? idx).
+
+  Fixpoint check_steps (idx : N) (prev : report) (os : list ostep) : bool :=
+    match os with
+    | [] => true
+    | o :: r => check_step idx prev o && check_steps (idx + 1) (o_rep o) r
+    end.
+
+  Definition check_C16 (init : report) (os : list ostep) : bool :=
+    check_state freq K W data init && check_steps 0 init os.
+
+  (* what the model reports for a run: one step per call of next() that returned Some *)
+  Fixpoint obs_of_trace (t : list (state * option iteration)) : list ostep :=
+    match t with
+    | [] => []
+    | (st, Some it) :: r => mkOStep it (report_of freq st) :: obs_of_trace r
+    | (_, None) :: r => obs_of_trace r
+    end.
+End CheckC16.
